@@ -90,31 +90,52 @@ def run(chk, facts_dir, tier):
         for side in (c["a"], c["b"]):
             if any(isinstance(x, tuple) and x and x[0] == "field" and x[2] == "segment_size" for x in walk(c["b"] if side is c["a"] else c["a"])):
                 es_terms.append((side, c["line"]))
-    sums = [t for t, l in es_terms if has_call(t, lambda n_: n_.endswith("Iterator::sum"))]
-    sites = [frozenset((x[3], x[4]) for x in walk(t) if isinstance(x, tuple) and x and x[0] == "call" and x[1].endswith("Iterator::sum")) for t in sums]
-    if len(sums) >= 2 and len(set(sites)) == 1 and len(sites[0]) == 1:
-        chk.ok("R19.2", "size test and rollover decision use the same events_size (%d comparisons against segment_size)" % len(sums), hb.where(es_terms[0][1]))
+    # the estimate is whatever is compared with segment_size (up to constants): every such comparison must use one and the same value
+    from .c13 import addsub_leaves
+
+    def estimate_leaves(t):
+        out = []
+        for sg, lf in addsub_leaves(t):
+            lf = strip(lf)
+            if lf[0] == "const":
+                continue
+            if any(isinstance(x, tuple) and x and x[0] == "call" and x[1].endswith("::write_offset") for x in walk(lf)):
+                continue          # the space already used in the live segment
+            out.append(lf)
+        return out
+
+    bases = [" + ".join(sorted(show(x) for x in estimate_leaves(t))) for t, l in es_terms]
+    est_bodies = list(prog.family(HAE))
+    helper = None
+    for t, l in es_terms:
+        for lf in estimate_leaves(t):
+            if lf[0] == "call" and lf[1] in prog.bodies:
+                helper = lf[1]
+    if helper:
+        est_bodies += list(prog.family(helper))          # the computation was extracted into a private helper
+    if len(es_terms) >= 2 and len(set(bases)) == 1:
+        chk.ok("R19.2", "size test and rollover decision use the same events_size (%d comparisons against segment_size)" % len(es_terms), hb.where(es_terms[0][1]))
     else:
-        chk.fail("R19.2", HAE, "estimate-split", "the EventsExceedSegmentSize test and the rollover decision do not use one and the same size estimate", hb)
+        chk.fail("R19.2", HAE, "estimate-split", "the EventsExceedSegmentSize test and the rollover decision do not use one and the same size estimate (%s)" % sorted(set(bases))[:3], hb)
     # summands
-    if sums:
-        t = sums[0]
-        names = {x[1] for x in walk(t) if isinstance(x, tuple) and x and x[0] == "const"}
+    if es_terms:
         named = set()
-        for b in prog.family(HAE):
+        lens = 0
+        flag = False
+        for b in est_bodies:
             for i, j, s in b.assigns():
                 for o in (s["rv"].get("a"), s["rv"].get("b"), s["rv"].get("op")):
                     if isinstance(o, dict) and o.get("named"):
                         named.add(o["named"].split("::")[-1])
+            if b.kind == "Closure":
+                lens += len([1 for bi, t_ in b.calls() if (b.callee_decl(t_) or "").endswith("::len")])
+            if calls(b, "sierradb::id::get_uuid_flag"):
+                flag = True
         need = {"EVENT_HEADER_SIZE", "COMMIT_SIZE", "SEGMENT_HEADER_SIZE"}
-        lens = 0
-        for b in prog.children(HAE):
-            lens += len([1 for bi, t_ in b.calls() if (b.callee_decl(t_) or "").endswith("::len")])
-        flag = calls(hb, "sierradb::id::get_uuid_flag")
         if need <= named and lens >= 4 and flag:
             chk.ok("R19.2", "events_size = sum(EVENT_HEADER_SIZE + 4 lengths) + (COMMIT_SIZE unless flagged); checked against segment_size with SEGMENT_HEADER_SIZE", hb.where())
         else:
-            chk.fail("R19.2", HAE, "estimate-summands", "the size estimate lost a summand (constants used: %s, variable lengths: %d, flag test: %s)" % (sorted(named & need), lens, bool(flag)), hb)
+            chk.fail("R19.2", HAE, "estimate-summands", "the size estimate lost a summand (constants used: %s, variable lengths: %d, flag test: %s)" % (sorted(named & need), lens, flag), hb)
     return {}
 
 
